@@ -408,6 +408,25 @@ def reuse_fill_grid(chk):
         check_pictures(chk, font, cfg, srcs, glyphs, 0.1, f"reuse grid [{label}] [{fmt}]", replay, deltas=CC.layer_deltas(glyphs, cfg, 0.1))
 
 
+def stop_alpha_grid(chk):
+    """colour spelling (own alpha or not) x stop-opacity x shape opacity as OT-SVG documents (guards fix 4df48a8)."""
+    for k, (label, glyphs) in enumerate(S.stop_alpha_grid()):
+        fmt = "picosvg" if k % 3 else "picosvgz"
+        cfgkw = dict(color_format=fmt, keep_glyph_names=True, clip_to_viewbox=False, reuse_tolerance=0.1)
+        cfg = build.base_config(**cfgkw)
+        srcs = CC.sources_from(glyphs)
+        replay = {"kind": "otsvg-stop-alpha", "label": label, "config": {a: str(b) for a, b in cfgkw.items()}, "svgs": [x.svg_text for x in srcs]}
+        chk.case(key=("stop-alpha", label), nontrivial=True)
+        chk.traces_validated += 1
+        try:
+            _, font = build.build(cfg, srcs, already_pico=True)
+        except Exception as e:
+            chk.violation(f"valid sources fail to build [{label}] ({fmt}): {type(e).__name__}: {str(e)[:200]}", replay)
+            continue
+        structural_checks(chk, font, f"alpha grid {label}", replay)
+        check_pictures(chk, font, cfg, srcs, glyphs, 0.1, f"alpha grid [{label}] [{fmt}]", replay, deltas=CC.layer_deltas(glyphs, cfg, 0.1))
+
+
 def shared_gradient_documents(chk, n):
     for k in range(n):
         r = common.rng("C02", "sg", k)
@@ -484,6 +503,7 @@ def run(chk):
         reuse_fill_grid(chk)
         replay_gradient_model(chk)
         shared_gradient_documents(chk, 16 if quick else 400)
+        stop_alpha_grid(chk)
         from . import gradcache_check
 
         gradcache_check.run(chk, lambda c, font, cfg, srcs, glyphs, ctx, replay: (
